@@ -297,6 +297,10 @@ bool h_named(const std::string &name, Case &c) {
     const Snapshot &s = snap("linux/16amd64-8n2c-cpusets"); TopoSpec sp; sp.components = "linux,stop";
     run_snapshot_case(c, s, sp, {idx(s, "sys/devices/system/cpu/cpu5/topology")}); return true;
   }
+  if (name == "F-C18-f") {   // I/O locality made of CPUs that are not in the topology: childless Group with NULL nodesets
+    const Snapshot &s = snap("linux/2pa-pcidomain32bits"); TopoSpec sp; sp.components = "linux,stop"; sp.all_filter_set = true; sp.all_filter = HWLOC_TYPE_FILTER_KEEP_ALL;
+    run_snapshot_case(c, s, sp, {idx(s, "sys/devices/system/cpu/cpu1/topology")}); return true;
+  }
   if (name == "F-C18-e") {   // no node directory + cgroup that only allows CPUs of one Package: the default NUMA node ended below that Package with the Machine's complete_cpuset
     const Snapshot &s = snap("linux/32amd64-4s2n4c-cgroup2"); TopoSpec sp; sp.components = "linux,stop";
     run_snapshot_case(c, s, sp, {idx(s, "sys/devices/system/node")}); return true;
